@@ -439,7 +439,7 @@ def correspond(res, rng, tier):
                               "failing_run": program_src(p, witness[0]), "not_admitted": witness[1]})
   # ---- stream 2 (exploration beyond the theorem's fragment; the property's own oracle, applied directly) ----
   fam = (c01x.truthiness_family() + c01x.narrowing_family() + c01x.call_family()
-         + c01x.store_family() + c01x.display_family() + c01x.super_family())   # deterministic families, always in full
+         + c01x.store_family() + c01x.display_family() + c01x.super_family() + c01x.compare_family())   # deterministic families, always in full
   xpool = [x for b in xb for x in pool_x(b)]
   n_listed += sum(1 for x in xpool if x in skip)
   xsrcs = fam + [x for x in xpool if x not in skip]
